@@ -54,14 +54,15 @@ def load_config_toml(
     if os.path.isfile(config_file_path):
         with open(config_file_path) as f:
             config = f.read()
-        config_toml = tomlkit.parse(config)
+        config_toml = tomlkit.parse(config).unwrap()
     else:
         # If file doesn't exist, write with commented-out default config
         with open(config_file_path, "w") as f:
             f.write(_comment_out_toml(default_config))
         config_toml = dict()
 
-    config = _merge(default_config_toml, config_toml)
+    # Merge plain dicts, tomlkit containers can't take arbitrary tables in-place
+    config = _merge(default_config_toml.unwrap(), config_toml)
 
     return config
 
